@@ -411,6 +411,35 @@ def verifyBib (b : Bundle) (sb : SecBlock) : Verdict :=
   | .ok => verifyBibLoop P store crcFn b sb sb.targets 0 false
   | v => v
 
+/-! ## A whole BCB (`CoseContext.verify_bcb`) -/
+
+/-- the target block object is shared with the container: writing its BTSD changes the bundle -/
+def replaceBlock (blocks : List Canonical) (c : Canonical) : List Canonical :=
+  blocks.map (fun b => if b.blockNum == c.blockNum then c else b)
+
+/-- Loop of `verify_bcb` over the targets from index `ix`: verdict and the canonical blocks afterwards
+    (accepted targets hold their plaintext). `fail` = a FAILED_SEC was recorded for an earlier target;
+    it is never withdrawn by a later target that verifies. -/
+def verifyBcbLoop (accept : Bool) (prim : Primary) (sb : SecBlock) :
+    List Nat → List Canonical → Nat → Bool → Verdict × List Canonical
+  | [], blocks, _, fail => (if fail then .failed 15 else .ok, blocks)
+  | t :: ts, blocks, ix, fail =>
+    match findBlock blocks t with
+    | none => (.raised, blocks)
+    | some tgt =>
+      match sb.results[ix]? with
+      | none => (.raised, blocks)
+      | some [(_, m)] =>
+        let r := verifyBcbTarget P store crcFn accept (ctxFor prim blocks sb tgt) (m.attach (tgt.btsd.getD []))
+        verifyBcbLoop accept prim sb ts (if accept then replaceBlock blocks r.2 else blocks) (ix + 1) (fail || !r.1)
+      | some _ => verifyBcbLoop accept prim sb ts blocks (ix + 1) true
+
+/-- `CoseContext.verify_bcb`: verdict (`ok` = it returned `None`) and the blocks afterwards. -/
+def verifyBcb (accept : Bool) (b : Bundle) (sb : SecBlock) : Verdict × List Canonical :=
+  match checkSecblk sb with
+  | .ok => verifyBcbLoop P store crcFn accept b.primary sb sb.targets b.blocks 0 false
+  | v => (v, b.blocks)
+
 end
 
 end Sec
